@@ -68,6 +68,19 @@ def monitor(c):
                             "C04:ran-on-failed-setup")
     if hook_failures and c.obs.exit != 1 and not c.obs.timeout:
         return ("%d layer hook(s) raised but the run exited with status %r" % (hook_failures, c.obs.exit), "C04:hook-not-recorded")
+    # "every other selected test whose layers can be set up still runs": a selected test none of whose layers ever
+    # failed to set up, in a run nobody stopped and in which no process died, started somewhere
+    if c.groups is not None and not c.obs.timeout and not c.opts.get("stopOnError") \
+            and not any(e.get("ev") == "die" for e in c.obs.events):
+        setup_failed = {e[1] for evs in [parent] + list(children.values()) for e in evs if e[0] == "lsu" and not e[2]}
+        started = {e[1] for evs in [parent] + list(children.values()) for e in evs if e[0] == "tstart"}
+        for li, ts in c.groups:
+            if worlds.closure(w["layers"], li) & setup_failed:
+                continue
+            lost = sorted(set(ts) - started)
+            if lost:
+                return ("selected test(s) %r of layer %s never started in any process although every layer they need "
+                        "could be set up" % (["t%d" % t for t in lost[:6]], worlds.layer_name(w, li)), "C04:test-lost")
     # a summary for every layer iteration that ran tests
     parsed = worlds.parse_output(out)
     nlayer_iters = 0
@@ -135,6 +148,36 @@ def gen_cases(ctx):
                         p_["excStyle"] = "nomsg"
             o["xml"] = "xmlout"
         cases.append(cw.Case(w, o, "directed:noframes"))
+    cases += leak_cases(ctx, 6 if ctx.quick() else 100)
+    return cases
+
+
+def leak_cases(ctx, n):
+    """--buffer: a test replaces sys.stdout and sys.stderr by a stream of its own and raises before it puts them
+    back - at the end, in the middle and at the start of its layer; the reports of that test and of everything after
+    it must still reach the output"""
+    rng = ctx.rng
+    cases = []
+    for i in range(n):
+        w = worlds.gen_world(rng, n_layers=rng.choice([2, 3]), tests_per_layer=(1, 3), kinds=["pass", "pass", "fail"],
+                             p_fault=0.0, p_write=0.0)
+        for t in w["tests"]:
+            for k in ("doctest", "rebind", "ownstream"):
+                t.pop(k, None)
+        victims = [t for t in w["tests"] if t["kind"] == "pass"]
+        # the last test of a layer, and one more anywhere
+        by_layer = {}
+        for t in w["tests"]:
+            by_layer.setdefault(t["layer"], []).append(t)
+        chosen = [ts[-1] for ts in by_layer.values() if ts[-1]["kind"] == "pass"][:1] + ([rng.choice(victims)] if victims else [])
+        for t in chosen:
+            t["kind"] = "error"
+            t["body"]["exc"] = "error"
+            t["body"]["leakstreams"] = True
+            t["body"]["writes"] = []
+            t["body"].pop("excStyle", None)
+        cases.append(cw.Case(w, {"verbose": rng.choice([0, 1, 2, 3]), "buffer": True, "processes": rng.choice([1, 1, 2])},
+                             "directed:leak-streams"))
     return cases
 
 
